@@ -1,6 +1,361 @@
 package main
 
-import "verifh/ev"
+// Part (c), parent side: the list of cases (named exit paths of
+// (*bigmachineExecutor).Run + a sweep of every driver/worker RPC of a reduce
+// program × fault kinds), one child process per case, confirmation re-runs, and
+// aggregation into violations / coverage.
 
-func runCluster(r *ev.Run) (map[string]interface{}, int64, int64) { return map[string]interface{}{}, 0, 0 }
-func childMain(s string)                                          {}
+import (
+	"bytes"
+	"context"
+	"encoding/json"
+	"fmt"
+	"os"
+	osexec "os/exec"
+	"sort"
+	"strings"
+	"sync"
+	"time"
+
+	"verifh/ev"
+)
+
+func runChild(c ccase) (cres, error) {
+	b, _ := json.Marshal(c)
+	ctx, cancel := context.WithTimeout(context.Background(), 6*time.Minute)
+	defer cancel()
+	cmd := osexec.CommandContext(ctx, os.Args[0], "-c14child", string(b))
+	cmd.Env = os.Environ()
+	var out, errb bytes.Buffer
+	cmd.Stdout, cmd.Stderr = &out, &errb
+	err := cmd.Run()
+	for _, l := range strings.Split(out.String(), "\n") {
+		if strings.HasPrefix(l, "CASE ") {
+			var r cres
+			if e := json.Unmarshal([]byte(l[5:]), &r); e == nil {
+				return r, nil
+			}
+		}
+	}
+	tail := errb.String()
+	if len(tail) > 1500 {
+		tail = tail[len(tail)-1500:]
+	}
+	return cres{ID: c.ID, Name: c.Name()}, fmt.Errorf("child printed no CASE line (%v): %s", err, tail)
+}
+
+type shape struct {
+	M, P int
+	Load float64
+}
+
+func namedCases(thorough bool) []ccase {
+	var cs []ccase
+	add := func(s shape, extra int, comb bool, scen string, r *rule) {
+		cs = append(cs, ccase{Kind: "named", Cluster: s.M, P: s.P, MaxLoad: s.Load, Extra: extra, Combiner: comb, Scenario: scen, Rule: r})
+	}
+	shapes := []shape{{1, 2, 1}, {2, 2, 1}}
+	if thorough {
+		shapes = append(shapes, shape{1, 1, 1}, shape{1, 3, 1}, shape{1, 4, 0.5}, shape{2, 3, 1}, shape{2, 4, 0.5})
+	}
+	for _, s := range shapes {
+		// Worker.Run: ok / fatal remote error (user code) / transport outcomes
+		add(s, 0, false, "map1", nil)
+		add(s, 0, false, "map-panic", nil)
+		add(s, 0, false, "reader-error", nil)
+		add(s, 0, false, "map1", &rule{Method: "Worker.Run", Nth: 1, Action: "neterr"})
+		add(s, 0, false, "map1", &rule{Method: "Worker.Run", Nth: 1, Action: "http500"})
+		add(s, 1, false, "map1", &rule{Method: "Worker.Run", Nth: 1, Action: "kill-before"})
+		add(s, 1, false, "map1", &rule{Method: "Worker.Run", Nth: 1, Action: "kill-after"})
+		// Worker.Compile: remote application error / fatal-invalid / transport
+		add(s, 0, false, "compile-panic", nil)
+		add(s, 0, false, "unencodable", nil)
+		add(s, 0, false, "map1", &rule{Method: "Worker.Compile", Nth: 1, Action: "neterr"})
+		add(s, 0, false, "map1", &rule{Method: "Worker.Compile", Nth: 1, Action: "http500"})
+		add(s, 1, false, "map1", &rule{Method: "Worker.Compile", Nth: 1, Action: "kill-before"})
+		add(s, 1, false, "map1", &rule{Method: "Worker.Compile", Nth: 1, Action: "kill-after"})
+		// Worker.CommitCombiner
+		add(s, 0, true, "reduce", nil)
+		add(s, 0, true, "reduce", &rule{Method: "Worker.CommitCombiner", Nth: 1, Action: "neterr"})
+		add(s, 0, true, "reduce", &rule{Method: "Worker.CommitCombiner", Nth: 1, Action: "http500"})
+		add(s, 1, true, "reduce", &rule{Method: "Worker.CommitCombiner", Nth: 1, Action: "kill-before"})
+		// (with M > 1 the reduce tasks run on every machine and each commits on every
+		// machine, so the kill above also covers "a machine holding a dependency dies
+		// while the task runs on another, surviving machine")
+		// missing dependency location (state forced through an accessor)
+		add(s, 0, false, "missing-location", nil)
+		// cancellation of the run's context
+		add(s, 0, false, "ctx-cancel-running", nil)
+		add(s, 0, false, "ctx-cancel-waiting", nil)
+		if s.M > 1 {
+			add(s, 0, false, "probation", &rule{Method: "Worker.Run", Nth: 1, Action: "http500"})
+			add(s, 1, false, "stopped", &rule{Method: "Worker.Run", Nth: 1, Action: "kill-before"})
+		}
+	}
+	return cs
+}
+
+// sweepCases: for each shape and program, every Worker RPC seen in failure-free
+// runs × fault kinds.
+func sweepCases(r *ev.Run, thorough bool) (cs []ccase, labels int) {
+	shapes := []shape{{2, 2, 1}}
+	combs := []bool{true}
+	actions := []string{"http500"}
+	if thorough {
+		shapes = []shape{{1, 2, 1}, {2, 2, 1}}
+		combs = []bool{true, false}
+		actions = []string{"neterr", "http500", "kill-before", "kill-after"}
+	}
+	type disc struct {
+		s    shape
+		comb bool
+	}
+	var ds []disc
+	for _, s := range shapes {
+		for _, cb := range combs {
+			ds = append(ds, disc{s, cb})
+		}
+	}
+	// two failure-free runs each (which Stat/Read RPCs exist depends on placement)
+	counts := make([]map[string]int, len(ds))
+	var mu sync.Mutex
+	ev.Parallel(len(ds)*2, 8, func(i int) {
+		d := ds[i/2]
+		res, err := runChild(ccase{ID: 9000 + i, Kind: "discover", Cluster: d.s.M, P: d.s.P, MaxLoad: d.s.Load, Combiner: d.comb, Scenario: "reduce"})
+		if err != nil || res.Vacuous != "" || res.RunErr != "" {
+			r.NotExhaustive(fmt.Sprintf("sweep discovery run failed for %+v: %v %s %s", d, err, res.Vacuous, res.RunErr))
+			return
+		}
+		m := map[string]int{}
+		for _, c := range res.Calls {
+			m[strings.SplitN(c, "@", 2)[0]]++
+		}
+		mu.Lock()
+		if counts[i/2] == nil {
+			counts[i/2] = map[string]int{}
+		}
+		for k, v := range m {
+			if v > counts[i/2][k] {
+				counts[i/2][k] = v
+			}
+		}
+		mu.Unlock()
+	})
+	for i, d := range ds {
+		var methods []string
+		for m := range counts[i] {
+			methods = append(methods, m)
+		}
+		sort.Strings(methods)
+		for _, m := range methods {
+			if !thorough && !driverMethod(m) {
+				continue // worker→worker Stat/Read faults: thorough tier
+			}
+			for n := 1; n <= counts[i][m]; n++ {
+				labels++
+				for _, a := range actions {
+					extra := 0
+					if strings.HasPrefix(a, "kill") {
+						extra = 1
+					}
+					cs = append(cs, ccase{Kind: "sweep", Cluster: d.s.M, P: d.s.P, MaxLoad: d.s.Load, Extra: extra, Combiner: d.comb,
+						Scenario: "reduce", Rule: &rule{Method: m, Nth: n, Action: a}})
+				}
+			}
+		}
+	}
+	return cs, labels
+}
+
+type sigAgg struct {
+	path, oracle string
+	cases        []string
+	detail       string
+	first        cres
+}
+
+func runCluster(r *ev.Run) (map[string]interface{}, int64, int64) {
+	cases := namedCases(r.Thorough())
+	sweep, labels := sweepCases(r, r.Thorough())
+	cases = append(cases, sweep...)
+	for i := range cases {
+		cases[i].ID = i + 1
+	}
+	results := make([]cres, len(cases))
+	errs := make([]error, len(cases))
+	ev.Parallel(len(cases), 8, func(i int) {
+		results[i], errs[i] = runChild(cases[i])
+	})
+
+	// Confirmation: a case with violations is re-run 3× in fresh processes; only
+	// oracles that fail in every re-run are reported.
+	type conf struct {
+		i    int
+		runs [3]cres
+		errs [3]error
+	}
+	var confs []*conf
+	for i, res := range results {
+		if errs[i] == nil && len(res.Violations) > 0 {
+			confs = append(confs, &conf{i: i})
+		}
+	}
+	ev.Parallel(len(confs)*3, 8, func(k int) {
+		c := confs[k/3]
+		c.runs[k%3], c.errs[k%3] = runChild(cases[c.i])
+	})
+	confirmed := map[int]map[string]bool{}
+	for _, c := range confs {
+		ok := map[string]bool{}
+		for o := range results[c.i].Violations {
+			all := true
+			for k := 0; k < 3; k++ {
+				if c.errs[k] != nil {
+					all = false
+					break
+				}
+				if _, has := c.runs[k].Violations[o]; !has || c.runs[k].Path != results[c.i].Path {
+					all = false
+				}
+			}
+			if all {
+				ok[o] = true
+			} else {
+				r.Note("part c: %s: oracle %s failed once but not in all 3 re-runs; not reported", results[c.i].Name, o)
+				r.NotExhaustive("part c: an unconfirmed oracle failure in " + results[c.i].Name)
+			}
+		}
+		confirmed[c.i] = ok
+	}
+
+	aggs := map[string]*sigAgg{}
+	paths := map[string]int{}
+	pathFired := map[string]int{}
+	var (
+		executed, fired, withRule, vacuous, hung, probes, probeOK, inconclusive int
+		table                                                                   []map[string]interface{}
+		samples                                                                 int
+	)
+	for i, res := range results {
+		if errs[i] != nil {
+			fmt.Fprintf(os.Stderr, "MACHINERY-ERROR: c14 case %s: %v\n", cases[i].Name(), errs[i])
+			r.NotExhaustive("part c: case " + cases[i].Name() + " produced no result")
+			continue
+		}
+		executed++
+		samples += res.Samples
+		if cases[i].Rule != nil {
+			withRule++
+			if res.Fired {
+				fired++
+			}
+		}
+		if res.Vacuous != "" {
+			vacuous++
+			r.Note("part c: %s vacuous: %s", res.Name, res.Vacuous)
+			if cases[i].Kind == "named" {
+				r.NotExhaustive("part c: named case did not reach its situation: " + res.Name + ": " + res.Vacuous)
+			}
+		}
+		if res.Inconclusive != "" {
+			inconclusive++
+			r.Note("part c: %s inconclusive: %s", res.Name, res.Inconclusive)
+			r.NotExhaustive("part c: case inconclusive: " + res.Name)
+		}
+		if res.RunHung {
+			hung++
+			r.Note("part c: %s: the run itself hung (%v watchdog); conservation oracles only", res.Name, runWatchdog)
+		}
+		if cases[i].Kind == "named" && cases[i].Rule != nil && !res.Fired {
+			r.NotExhaustive("part c: fault of named case never fired: " + res.Name)
+		}
+		paths[res.Path]++
+		if res.Fired || cases[i].Rule == nil {
+			pathFired[cases[i].Scenario+" "+cases[i].Rule.String()+" -> "+res.Path]++
+		}
+		if res.ProbeRan {
+			probes++
+			if res.ProbeOK {
+				probeOK++
+			}
+		}
+		row := map[string]interface{}{"case": res.Name, "kind": cases[i].Kind, "fired": res.Fired, "exit_path": res.Path, "quiescent": res.Quiescent,
+			"probe_ok": res.ProbeOK, "ms": res.Ms}
+		if len(res.Violations) > 0 {
+			var os []string
+			for o := range res.Violations {
+				os = append(os, o)
+			}
+			sort.Strings(os)
+			row["failed_oracles"] = os
+		}
+		if len(res.Notes) > 0 {
+			row["notes"] = res.Notes
+		}
+		table = append(table, row)
+		for o, d := range res.Violations {
+			if !confirmed[i][o] {
+				continue
+			}
+			sig := "C14/c/" + res.Path + "/" + o
+			a := aggs[sig]
+			if a == nil {
+				a = &sigAgg{path: res.Path, oracle: o, detail: d, first: res}
+				aggs[sig] = a
+			}
+			a.cases = append(a.cases, res.Name)
+		}
+	}
+	var sigs []string
+	for s := range aggs {
+		sigs = append(sigs, s)
+	}
+	sort.Strings(sigs)
+	for _, s := range sigs {
+		a := aggs[s]
+		f := a.first
+		f.Dump = ""
+		r.Violate(s, fmt.Sprintf("Run exit path %q, oracle %s, %d case(s), first: %s: %s", a.path, a.oracle, len(a.cases), a.cases[0], a.detail),
+			map[string]interface{}{"cases": a.cases, "first_case": f, "confirmed": "3 re-runs in fresh processes, same oracle and exit path each time"})
+	}
+	// samples: one per interesting exit path
+	seen := map[string]bool{}
+	for i, res := range results {
+		if errs[i] != nil || seen[res.Path] || len(seen) >= 5 {
+			continue
+		}
+		seen[res.Path] = true
+		r.Sample(map[string]interface{}{"part": "c", "case": res.Name, "fired": res.Fired, "run_err": res.RunErr, "exit_path": res.Path,
+			"machines_at_quiescence": res.Views, "probe_ok": res.ProbeOK, "rpcs": head(res.Calls, 12)})
+	}
+	cov := map[string]interface{}{
+		"cases":                       len(cases),
+		"cases_executed":              executed,
+		"named_cases":                 len(cases) - len(sweep),
+		"sweep_cases":                 len(sweep),
+		"sweep_rpc_labels":            labels,
+		"cases_with_fault":            withRule,
+		"faults_fired":                fired,
+		"vacuous_cases":               vacuous,
+		"runs_hung":                   hung,
+		"inconclusive_cases":          inconclusive,
+		"capacity_probes":             probes,
+		"capacity_probes_ok":          probeOK,
+		"book_samples":                samples,
+		"distinct_exit_paths":         len(paths),
+		"exit_paths":                  paths,
+		"scenario_fault_to_exit_path": pathFired,
+		"confirmed_reruns":            len(confs) * 3,
+		"table":                       table,
+		"not_covered":                 "Run's `case <-ctx.Done()` before a machine is offered and the `ctx.Err() != nil` branch after Worker.Run: ctx is the process-wide backgroundcontext, whose cancellation also stops the managers (no live session to test afterwards). The compile-loop branch for a context error cached from a prior invocation is not reachable through the transport. 'missing dependency location' is forced by deleting location entries through an accessor.",
+		"oracles":                     "books (accessor): 0 <= taskProcs <= maxTaskProcs at every RPC boundary and every 2ms; all machines back to 0 procs in use and no queued request once no Compile/Run/CommitCombiner RPC is in flight; black box: one Exclusive task per machine, all waiting for each other, must complete (machine count capped); no Worker.Compile/Run to a machine on probation or marked lost",
+	}
+	return cov, 0, int64(executed)
+}
+
+func head(s []string, n int) []string {
+	if len(s) > n {
+		return s[:n]
+	}
+	return s
+}
